@@ -88,6 +88,28 @@ var respelledForms = []reqForm{
 	{"PROPFIND", "prop", "1"}, {"PROPFIND", "allprop", "0"}, {"MKCOL", "empty", ""}, {"DELETE", "", ""}, {"GET", "", ""}, {"REPORT", "query", ""},
 }
 
+// openMethods makes the method axis open: tokens the handlers have no case
+// for today (WebDAV/CalDAV/CardDAV extension methods, other HTTP methods,
+// lower-case spellings, made-up tokens). They are judged by their effect on
+// the backend, never by their status.
+var openMethods = []string{
+	"MKCALENDAR", "MKADDRESSBOOK", "MKACTIVITY", "MKWORKSPACE", "MKREDIRECTREF", "MKRESOURCE", "MKCOLLECTION",
+	"BIND", "UNBIND", "REBIND", "LINK", "UNLINK", "PATCH", "POST", "LOCK", "UNLOCK", "ACL", "SEARCH", "ORDERPATCH",
+	"UPDATE", "CHECKIN", "CHECKOUT", "UNCHECKOUT", "VERSION-CONTROL", "BASELINE-CONTROL", "LABEL", "MERGE", "TRACE", "PURGE", "QUERY",
+	"mkcol", "mkcalendar", "Mkcol", "propfind", "report", "get", "options", "FROB", "X-WHATEVER", "M-SEARCH", "CREATE", "NEW",
+}
+
+func openForms() []reqForm {
+	var l []reqForm
+	for _, m := range openMethods {
+		l = append(l, reqForm{m, "empty", ""})
+		if len(m) > 2 && (m[:2] == "MK" || m[:2] == "mk" || m[:2] == "Mk") || m == "POST" || m == "CREATE" {
+			l = append(l, reqForm{m, "body", ""})
+		}
+	}
+	return l
+}
+
 var entries = []string{"well-known", "root", "root-slash", "principal"}
 
 // ---- random names ---------------------------------------------------------
@@ -219,7 +241,8 @@ func execCase(c *fw.Ctx, cs *Case) {
 func run(c *fw.Ctx) {
 	idx := 0
 	forms := reqForms()
-	nStruct, nChain, nSpell, nMulti := 0, 0, 0, 0
+	nStruct, nChain, nSpell, nMulti, nOpen := 0, 0, 0, 0, 0
+	oforms := openForms()
 	// Structural product, enumerated completely in both tiers.
 	for _, server := range []string{"caldav", "carddav"} {
 		for nsi := range nameSets {
@@ -256,6 +279,19 @@ func run(c *fw.Ctx) {
 								// the request target, for the rows with teeth.
 								if (cl.level == 0 && plen == 0) || sti != (nsi+plen+1)%len(layStyles) {
 									continue // "/" has no other spelling; the backend's layout style does not matter here: one per (name set, prefix)
+								}
+								if sti == (nsi+plen+2)%len(layStyles) {
+									// the open method axis, one layout style per (name set, prefix)
+									for _, f := range oforms {
+										if c.Mine(idx) {
+											cs := base
+											cs.Kind, cs.Method, cs.Form = "req", f.method, f.form
+											cs.Level, cs.Target, cs.Slash = cl.level, cl.target, slash
+											execReq(c, &cs)
+										}
+										idx++
+										nOpen++
+									}
 								}
 								for _, f := range respelledForms {
 									for _, sp := range spellings {
